@@ -253,6 +253,51 @@ def stale_pending_entries(rib):
         return -1
 
 
+class StaleWatch:
+    """Root-cause diagnosis for signatures (never decides a verdict): inside which RIB primitive a superseded entry was
+    left in a pending bucket.  The primitives of the RIB under test are wrapped on the INSTANCE (so replace_reload,
+    announce_watchdog ... are attributed to the primitive they call).  Known finding F2 is specifically `_update_rib` (an
+    announce superseding a queued announce of the same prefix with other attributes); a stale entry left inside the withdraw
+    path, or by anything else, is a different defect and must not hide behind F2's signature."""
+
+    PRIMITIVES = ('_update_rib', '_del_from_rib_impl')
+
+    def __init__(self, rib):
+        self.rib = rib
+        self.creators = set()
+        self.last = stale_pending_entries(rib)
+        for name in self.PRIMITIVES:
+            orig = getattr(rib, name, None)
+            if orig is not None:
+                setattr(rib, name, self._wrap(name, orig))
+
+    def _wrap(self, name, orig):
+        def wrapped(*a, **k):
+            self.sync('outside-the-primitives')
+            try:
+                return orig(*a, **k)
+            finally:
+                self.sync(name)
+        return wrapped
+
+    def sync(self, what):
+        n = stale_pending_entries(self.rib)
+        if n > self.last:
+            self.creators.add(what)
+        self.last = n
+
+    def after(self, what=None):
+        self.sync('outside-the-primitives')
+
+    def cause(self, seen, default):
+        self.sync('outside-the-primitives')
+        if seen <= 0:
+            return default
+        if self.creators <= {'_update_rib'}:
+            return 'stale-pending-entry'
+        return 'stale-entry-left-by-' + '+'.join(sorted(self.creators))
+
+
 def rep_invariant(rib):
     """Representation invariant I of OutgoingRIB's pending structures (read from the private dicts; used by the
     inductive-step units).  Returns the list of clauses that do NOT hold.
